@@ -17,7 +17,8 @@ From OV Require Import Proofs.RoundMatmul.
 (* ======================================================================================================
    C03 (dense matrix algebra), norm laws -- package matnorm.  Append to Props/C03.v.
    Proofs: Proofs/MatNormLawsBase.v (real sums, maxima), MatNormLawsP.v (norm_p with 0^p = 0), MatNormLawsAx.v (norm
-   axioms, transpose), MatNormLawsMink.v (Minkowski), MatNormLawsMul.v (products), MatNormLawsRound.v (standard model),
+   axioms, transpose), MatNormLawsMink.v (Minkowski), MatNormLawsMul.v (products), MatNormLawsMore.v (subtraction, comparison, monotonicity in p, identity),
+   MatNormLawsRound.v (standard model),
    MatNormLawsFloat.v (the binary64 instance through Flocq).
    All over the real instance [MatNormsR.AR]/[MatNormsR.SAR] of the model functions (the rounding block: the
    standard-model instance against it).  Axioms: the four standard real-number/classical ones, as for [norms_real].
@@ -25,7 +26,7 @@ From OV Require Import Proofs.RoundMatmul.
 From Coq Require Import Reals Lra Lia.
 From OV Require Import Base.RoundModel Proofs.RoundFlx.
 From OV Require Proofs.RoundNorm2 Proofs.MatNormLawsBase Proofs.MatNormLawsP Proofs.MatNormLawsAx Proofs.MatNormLawsMink
-  Proofs.MatNormLawsMul Proofs.MatNormLawsRound Proofs.MatNormLawsFloat.
+  Proofs.MatNormLawsMul Proofs.MatNormLawsMore Proofs.MatNormLawsRound Proofs.MatNormLawsFloat.
 
 (* ---------- norm_p with a power function that is right at zero (package matnorm) ----------
    [MatNormLawsP.pw x p] = if x = 0 then 0 else Rpower x p : the real power with 0^p = 0, which is what libm's pow returns
@@ -370,6 +371,123 @@ Example mnorm_frob_rounding_nonvacuous :
   Proofs.Matrix.wf (mkM (A:=ARm xadd xsub xmul xdiv) [1%R; (-2)%R; 0%R; 4%R; 0%R; (-5)%R] 2 3) /\ (INR (rows (mkM (A:=ARm xadd xsub xmul xdiv) [1%R; (-2)%R; 0%R; 4%R; 0%R; (-5)%R] 2 3) * cols (mkM (A:=ARm xadd xsub xmul xdiv) [1%R; (-2)%R; 0%R; 4%R; 0%R; (-5)%R] 2 3) + 1) * ux < 1)%R.
 Proof. split; [exact ux_range|]. split; [exact xadd_ok|]. split; [exact xmul_ok|]. split; [exact xadd_0_mul|].
   split; [intros x _; apply rndx_rel|]. split; [reflexivity|]. cbn [rows cols Nat.mul Nat.add INR]. pose proof ux_small. lra. Qed.
+
+(* ---------- further laws over R (package matnorm, Proofs/MatNormLawsMore.v) ----------
+   negation: all five norms unchanged (norm_p for every exponent) *)
+Theorem matnorm_neg : (forall (m : matrix MatNormsR.AR) (p : R), Proofs.Matrix.wf m ->
+  exists m' n1 ni nx nf n, mneg (A:=MatNormsR.AR) m = Ok m' /\
+    mnorm_1 (S:=MatNormsR.SAR) m = Ok n1 /\ mnorm_inf (S:=MatNormsR.SAR) m = Ok ni /\
+    mnorm_max (S:=MatNormsR.SAR) m = Ok nx /\ mnorm_frob (S:=MatNormsR.SAR) m = Ok nf /\ mnorm_p (S:=MatNormsR.SAR) (fun x => MatNormLawsP.pw x p) (fun s => MatNormLawsP.pw s (1 / p)) m = Ok n /\
+    mnorm_1 (S:=MatNormsR.SAR) m' = Ok n1 /\ mnorm_inf (S:=MatNormsR.SAR) m' = Ok ni /\
+    mnorm_max (S:=MatNormsR.SAR) m' = Ok nx /\ mnorm_frob (S:=MatNormsR.SAR) m' = Ok nf /\ mnorm_p (S:=MatNormsR.SAR) (fun x => MatNormLawsP.pw x p) (fun s => MatNormLawsP.pw s (1 / p)) m' = Ok n)%R.
+Proof. exact MatNormLawsMore.matnorm_neg_lemma. Qed.
+Check matnorm_neg : (forall (m : matrix MatNormsR.AR) (p : R), Proofs.Matrix.wf m ->
+  exists m' n1 ni nx nf n, mneg (A:=MatNormsR.AR) m = Ok m' /\
+    mnorm_1 (S:=MatNormsR.SAR) m = Ok n1 /\ mnorm_inf (S:=MatNormsR.SAR) m = Ok ni /\
+    mnorm_max (S:=MatNormsR.SAR) m = Ok nx /\ mnorm_frob (S:=MatNormsR.SAR) m = Ok nf /\ mnorm_p (S:=MatNormsR.SAR) (fun x => MatNormLawsP.pw x p) (fun s => MatNormLawsP.pw s (1 / p)) m = Ok n /\
+    mnorm_1 (S:=MatNormsR.SAR) m' = Ok n1 /\ mnorm_inf (S:=MatNormsR.SAR) m' = Ok ni /\
+    mnorm_max (S:=MatNormsR.SAR) m' = Ok nx /\ mnorm_frob (S:=MatNormsR.SAR) m' = Ok nf /\ mnorm_p (S:=MatNormsR.SAR) (fun x => MatNormLawsP.pw x p) (fun s => MatNormLawsP.pw s (1 / p)) m' = Ok n)%R.
+Print Assumptions matnorm_neg.
+Example matnorm_neg_nonvacuous :
+  Proofs.Matrix.wf (mkM (A:=MatNormsR.AR) [1%R; (-2)%R; 0%R; 4%R; 0%R; (-5)%R] 2 3).
+Proof. reflexivity. Qed.
+
+(* subtraction: ||A - B|| <= ||A|| + ||B|| and the reverse triangle inequality | ||A|| - ||B|| | <= ||A - B||
+   (each norm is Lipschitz continuous with constant 1 with respect to itself) *)
+Theorem matnorm_sub : (forall (a b : matrix MatNormsR.AR), Proofs.Matrix.wf a -> Proofs.Matrix.wf b -> rows a = rows b -> cols a = cols b ->
+  exists d a1 ai ax af b1 bi bx bf d1 di dx df, msub (A:=MatNormsR.AR) a b = Ok d /\
+    mnorm_1 (S:=MatNormsR.SAR) a = Ok a1 /\ mnorm_inf (S:=MatNormsR.SAR) a = Ok ai /\
+    mnorm_max (S:=MatNormsR.SAR) a = Ok ax /\ mnorm_frob (S:=MatNormsR.SAR) a = Ok af /\
+    mnorm_1 (S:=MatNormsR.SAR) b = Ok b1 /\ mnorm_inf (S:=MatNormsR.SAR) b = Ok bi /\
+    mnorm_max (S:=MatNormsR.SAR) b = Ok bx /\ mnorm_frob (S:=MatNormsR.SAR) b = Ok bf /\
+    mnorm_1 (S:=MatNormsR.SAR) d = Ok d1 /\ mnorm_inf (S:=MatNormsR.SAR) d = Ok di /\
+    mnorm_max (S:=MatNormsR.SAR) d = Ok dx /\ mnorm_frob (S:=MatNormsR.SAR) d = Ok df /\
+    (d1 <= a1 + b1 /\ di <= ai + bi /\ dx <= ax + bx /\ df <= af + bf) /\
+    (Rabs (a1 - b1) <= d1 /\ Rabs (ai - bi) <= di /\ Rabs (ax - bx) <= dx /\ Rabs (af - bf) <= df))%R.
+Proof. exact MatNormLawsMore.matnorm_sub_lemma. Qed.
+Check matnorm_sub : (forall (a b : matrix MatNormsR.AR), Proofs.Matrix.wf a -> Proofs.Matrix.wf b -> rows a = rows b -> cols a = cols b ->
+  exists d a1 ai ax af b1 bi bx bf d1 di dx df, msub (A:=MatNormsR.AR) a b = Ok d /\
+    mnorm_1 (S:=MatNormsR.SAR) a = Ok a1 /\ mnorm_inf (S:=MatNormsR.SAR) a = Ok ai /\
+    mnorm_max (S:=MatNormsR.SAR) a = Ok ax /\ mnorm_frob (S:=MatNormsR.SAR) a = Ok af /\
+    mnorm_1 (S:=MatNormsR.SAR) b = Ok b1 /\ mnorm_inf (S:=MatNormsR.SAR) b = Ok bi /\
+    mnorm_max (S:=MatNormsR.SAR) b = Ok bx /\ mnorm_frob (S:=MatNormsR.SAR) b = Ok bf /\
+    mnorm_1 (S:=MatNormsR.SAR) d = Ok d1 /\ mnorm_inf (S:=MatNormsR.SAR) d = Ok di /\
+    mnorm_max (S:=MatNormsR.SAR) d = Ok dx /\ mnorm_frob (S:=MatNormsR.SAR) d = Ok df /\
+    (d1 <= a1 + b1 /\ di <= ai + bi /\ dx <= ax + bx /\ df <= af + bf) /\
+    (Rabs (a1 - b1) <= d1 /\ Rabs (ai - bi) <= di /\ Rabs (ax - bx) <= dx /\ Rabs (af - bf) <= df))%R.
+Print Assumptions matnorm_sub.
+Example matnorm_sub_nonvacuous :
+  Proofs.Matrix.wf (mkM (A:=MatNormsR.AR) [1%R; (-2)%R; 0%R; 4%R; 0%R; (-5)%R] 2 3) /\ Proofs.Matrix.wf (mat_new (A:=MatNormsR.AR) 2 3 7%R) /\ rows (mkM (A:=MatNormsR.AR) [1%R; (-2)%R; 0%R; 4%R; 0%R; (-5)%R] 2 3) = rows (mat_new (A:=MatNormsR.AR) 2 3 7%R) /\ cols (mkM (A:=MatNormsR.AR) [1%R; (-2)%R; 0%R; 4%R; 0%R; (-5)%R] 2 3) = cols (mat_new (A:=MatNormsR.AR) 2 3 7%R).
+Proof. repeat split. Qed.
+
+Theorem norm_p_sub : (forall (a b : matrix MatNormsR.AR) (p : R), Proofs.Matrix.wf a -> Proofs.Matrix.wf b -> rows a = rows b -> cols a = cols b -> 1 <= p ->
+  exists d na nb nd, msub (A:=MatNormsR.AR) a b = Ok d /\
+    mnorm_p (S:=MatNormsR.SAR) (fun x => MatNormLawsP.pw x p) (fun s => MatNormLawsP.pw s (1 / p)) a = Ok na /\
+    mnorm_p (S:=MatNormsR.SAR) (fun x => MatNormLawsP.pw x p) (fun s => MatNormLawsP.pw s (1 / p)) b = Ok nb /\
+    mnorm_p (S:=MatNormsR.SAR) (fun x => MatNormLawsP.pw x p) (fun s => MatNormLawsP.pw s (1 / p)) d = Ok nd /\
+    nd <= na + nb /\ Rabs (na - nb) <= nd)%R.
+Proof. exact MatNormLawsMore.norm_p_sub_lemma. Qed.
+Check norm_p_sub : (forall (a b : matrix MatNormsR.AR) (p : R), Proofs.Matrix.wf a -> Proofs.Matrix.wf b -> rows a = rows b -> cols a = cols b -> 1 <= p ->
+  exists d na nb nd, msub (A:=MatNormsR.AR) a b = Ok d /\
+    mnorm_p (S:=MatNormsR.SAR) (fun x => MatNormLawsP.pw x p) (fun s => MatNormLawsP.pw s (1 / p)) a = Ok na /\
+    mnorm_p (S:=MatNormsR.SAR) (fun x => MatNormLawsP.pw x p) (fun s => MatNormLawsP.pw s (1 / p)) b = Ok nb /\
+    mnorm_p (S:=MatNormsR.SAR) (fun x => MatNormLawsP.pw x p) (fun s => MatNormLawsP.pw s (1 / p)) d = Ok nd /\
+    nd <= na + nb /\ Rabs (na - nb) <= nd)%R.
+Print Assumptions norm_p_sub.
+Example norm_p_sub_nonvacuous :
+  Proofs.Matrix.wf (mkM (A:=MatNormsR.AR) [1%R; (-2)%R; 0%R; 4%R; 0%R; (-5)%R] 2 3) /\ Proofs.Matrix.wf (mat_new (A:=MatNormsR.AR) 2 3 7%R) /\ rows (mkM (A:=MatNormsR.AR) [1%R; (-2)%R; 0%R; 4%R; 0%R; (-5)%R] 2 3) = rows (mat_new (A:=MatNormsR.AR) 2 3 7%R) /\ cols (mkM (A:=MatNormsR.AR) [1%R; (-2)%R; 0%R; 4%R; 0%R; (-5)%R] 2 3) = cols (mat_new (A:=MatNormsR.AR) 2 3 7%R) /\ (1 <= 3)%R.
+Proof. repeat split. lra. Qed.
+
+(* comparison of the norms (norm equivalence with explicit constants); s1 is the entrywise 1-norm norm_p(1) *)
+Theorem matnorm_comparison : (forall (m : matrix MatNormsR.AR), Proofs.Matrix.wf m ->
+  exists n1 ni nx nf s1, mnorm_1 (S:=MatNormsR.SAR) m = Ok n1 /\ mnorm_inf (S:=MatNormsR.SAR) m = Ok ni /\
+    mnorm_max (S:=MatNormsR.SAR) m = Ok nx /\ mnorm_frob (S:=MatNormsR.SAR) m = Ok nf /\
+    mnorm_p (S:=MatNormsR.SAR) (fun x => MatNormLawsP.pw x 1) (fun s => MatNormLawsP.pw s (1 / 1)) m = Ok s1 /\
+    (nx <= n1 /\ nx <= ni /\ nx <= nf) /\
+    (n1 <= INR (rows m) * nx /\ ni <= INR (cols m) * nx /\ nf <= R_sqrt.sqrt (INR (rows m * cols m)) * nx) /\
+    (n1 <= R_sqrt.sqrt (INR (rows m)) * nf /\ ni <= R_sqrt.sqrt (INR (cols m)) * nf) /\
+    (nf <= R_sqrt.sqrt (INR (cols m)) * n1 /\ nf <= R_sqrt.sqrt (INR (rows m)) * ni) /\
+    (n1 <= s1 /\ ni <= s1 /\ nf <= s1))%R.
+Proof. exact MatNormLawsMore.matnorm_comparison_lemma. Qed.
+Check matnorm_comparison : (forall (m : matrix MatNormsR.AR), Proofs.Matrix.wf m ->
+  exists n1 ni nx nf s1, mnorm_1 (S:=MatNormsR.SAR) m = Ok n1 /\ mnorm_inf (S:=MatNormsR.SAR) m = Ok ni /\
+    mnorm_max (S:=MatNormsR.SAR) m = Ok nx /\ mnorm_frob (S:=MatNormsR.SAR) m = Ok nf /\
+    mnorm_p (S:=MatNormsR.SAR) (fun x => MatNormLawsP.pw x 1) (fun s => MatNormLawsP.pw s (1 / 1)) m = Ok s1 /\
+    (nx <= n1 /\ nx <= ni /\ nx <= nf) /\
+    (n1 <= INR (rows m) * nx /\ ni <= INR (cols m) * nx /\ nf <= R_sqrt.sqrt (INR (rows m * cols m)) * nx) /\
+    (n1 <= R_sqrt.sqrt (INR (rows m)) * nf /\ ni <= R_sqrt.sqrt (INR (cols m)) * nf) /\
+    (nf <= R_sqrt.sqrt (INR (cols m)) * n1 /\ nf <= R_sqrt.sqrt (INR (rows m)) * ni) /\
+    (n1 <= s1 /\ ni <= s1 /\ nf <= s1))%R.
+Print Assumptions matnorm_comparison.
+Example matnorm_comparison_nonvacuous :
+  Proofs.Matrix.wf (mkM (A:=MatNormsR.AR) [1%R; (-2)%R; 0%R; 4%R; 0%R; (-5)%R] 2 3).
+Proof. reflexivity. Qed.
+
+(* norm_p is non-increasing in the exponent: 0 < p <= q -> norm_q <= norm_p *)
+Theorem norm_p_monotone : (forall (m : matrix MatNormsR.AR) (p q : R), Proofs.Matrix.wf m -> 0 < p -> p <= q ->
+  exists n_p n_q, mnorm_p (S:=MatNormsR.SAR) (fun x => MatNormLawsP.pw x p) (fun s => MatNormLawsP.pw s (1 / p)) m = Ok n_p /\
+    mnorm_p (S:=MatNormsR.SAR) (fun x => MatNormLawsP.pw x q) (fun s => MatNormLawsP.pw s (1 / q)) m = Ok n_q /\ n_q <= n_p)%R.
+Proof. exact MatNormLawsMore.norm_p_monotone_lemma. Qed.
+Check norm_p_monotone : (forall (m : matrix MatNormsR.AR) (p q : R), Proofs.Matrix.wf m -> 0 < p -> p <= q ->
+  exists n_p n_q, mnorm_p (S:=MatNormsR.SAR) (fun x => MatNormLawsP.pw x p) (fun s => MatNormLawsP.pw s (1 / p)) m = Ok n_p /\
+    mnorm_p (S:=MatNormsR.SAR) (fun x => MatNormLawsP.pw x q) (fun s => MatNormLawsP.pw s (1 / q)) m = Ok n_q /\ n_q <= n_p)%R.
+Print Assumptions norm_p_monotone.
+Example norm_p_monotone_nonvacuous :
+  Proofs.Matrix.wf (mkM (A:=MatNormsR.AR) [1%R; (-2)%R; 0%R; 4%R; 0%R; (-5)%R] 2 3) /\ (0 < / 2)%R /\ (/ 2 <= 3)%R.
+Proof. split; [reflexivity|split; lra]. Qed.
+
+(* the model's identity matrix: norm_1 = norm_inf = norm_max = 1, norm_frob = sqrt n *)
+Theorem matnorm_eye : (forall n : nat, (1 <= n)%nat ->
+  exists e, eye (A:=MatNormsR.AR) n = Ok e /\ mnorm_1 (S:=MatNormsR.SAR) e = Ok 1 /\ mnorm_inf (S:=MatNormsR.SAR) e = Ok 1 /\
+    mnorm_max (S:=MatNormsR.SAR) e = Ok 1 /\ mnorm_frob (S:=MatNormsR.SAR) e = Ok (R_sqrt.sqrt (INR n)))%R.
+Proof. exact MatNormLawsMore.matnorm_eye_lemma. Qed.
+Check matnorm_eye : (forall n : nat, (1 <= n)%nat ->
+  exists e, eye (A:=MatNormsR.AR) n = Ok e /\ mnorm_1 (S:=MatNormsR.SAR) e = Ok 1 /\ mnorm_inf (S:=MatNormsR.SAR) e = Ok 1 /\
+    mnorm_max (S:=MatNormsR.SAR) e = Ok 1 /\ mnorm_frob (S:=MatNormsR.SAR) e = Ok (R_sqrt.sqrt (INR n)))%R.
+Print Assumptions matnorm_eye.
+Example matnorm_eye_nonvacuous :
+  1 <= 3.
+Proof. lia. Qed.
 
 (* ---------- the norms at the PRIMITIVE-FLOAT instance itself (package matnorm) ----------
    [AF]/[SAF] = IEEE binary64, the instance the correspondence check runs bit for bit against the Rust code; through Flocq's
